@@ -322,7 +322,7 @@ struct Exec {
         // --- INIT bookkeeping
         if (o.code == OP_INIT) {
             if (exp == -2) exp = g_heap.failed_in_op > 0 ? 0 : 1;
-            for (auto &b : g_heap.blocks) if (b.alloc_op == i && b.owner_slot == -1) b.owner_slot = (ret == 1 && obj) ? o.slot : -3;
+            for (auto &b : g_heap.blocks) if (b.alloc_op == i && b.owner_slot == -1) b.owner_slot = (ret != 0 && obj) ? o.slot : -3;
             if (obj) {
                 if (ret != 0) {
                     st.life = L_INIT; st.backend = lib_backend(k, st.h); st.keyed = false; st.tweaked = false;
@@ -362,7 +362,7 @@ struct Exec {
         // --- rejected call: nothing may have changed
         if (want_unchanged && !h_before.empty() && o.code != OP_INIT) {
             if (on(CK_UNCHANGED) || on(CK_FAILINIT) || on(CK_HEAP)) {
-                if (obj && memcmp(h_before.data(), st.h, st.hsize) != 0 && !(o.code == OP_CLEANUP && st.life == L_FAILED && !on(CK_UNCHANGED))) { violate("rejected-call-changed-object", strf("%s was rejected (or is a no-op) but changed the caller's object", op_brief(plan, o).c_str())); return; }
+                if (obj && memcmp(h_before.data(), st.h, st.hsize) != 0 && !(o.code == OP_CLEANUP && life_before == L_FAILED)   /* cleanup after a failed init may tidy the handle: C16 only demands that it is safe */) { violate("rejected-call-changed-object", strf("%s was rejected (or is a no-op) but changed the caller's object", op_brief(plan, o).c_str())); return; }
                 if (blk && blk->live && !ctx_before.empty() && memcmp(ctx_before.data(), blk->base, blk->size) != 0) { violate("rejected-call-changed-context", strf("%s was rejected but changed the object's internal state", op_brief(plan, o).c_str())); return; }
                 if (blk && !blk->live) { violate("rejected-call-freed-context", strf("%s was rejected but released the object's memory", op_brief(plan, o).c_str())); return; }
                 if (g_heap.frees_in_op > 0 && (on(CK_HEAP) || on(CK_FAILINIT))) { violate("unexpected-free", strf("%s called free() although the object holds nothing (state %s)", op_brief(plan, o).c_str(), LIFE_NAME[life_before])); return; }
